@@ -69,7 +69,7 @@ known('C17', 'F27', "PiecewiseQuadraticCDF(shape, num_bins=1, tails='linear') / 
       {'fn': 'quad', 'tails': True, 'K': 1, 'symptom': 'raises-IndexError'})
 known('C19', 'F24', 'cubic_spline(inverse=True) in float32: the Cardano / trigonometric root formulas lose accuracy in single precision for some parameter values; e.g. PiecewiseCubicCouplingTransform(tails=linear, tail_bound=2.5).inverse at y = 2.5 returned 0.2233 and a NaN log-abs-det (float64 twin: 2.5, 7.108)',
       {'family': 'cubic', 'inverse': True, 'dtype': 'float32'})
-known('C16', 'F25', 'cubic_spline(inverse=True): for some strongly non-uniform parameter values the gradient autograd returns is NaN/inf although the value is finite (sqrt at a vanishing discriminant / masked one-root vs three-root branches); e.g. PiecewiseCubicCouplingTransform on images with perturbed ConvResidualNet parameters',
+known('C16', 'F25', 'cubic_spline(inverse=True): for some strongly non-uniform parameter values the gradient autograd returns is NaN/inf although the value is finite (sqrt at a vanishing discriminant / masked one-root vs three-root branches); e.g. PiecewiseCubicCouplingTransform on images with perturbed ConvResidualNet parameters; second witness, derived from the Lean theorem NF.WellDefined.cubic_inverse_cardano_log_zero and replayed on the code: ONE bin, zero widths/heights, unnorm_derivatives_left = -log 6, _right = log(4/3): every in-domain y takes the Cardano branch with one cube-root argument exactly 0 (cbrt = sign(x) exp(log|x|/3)): values correct, every gradient NaN',
       {'family': 'cubic', 'inverse': True, 'symptom': 'grad-nonfinite'})
 json.dump(F, open(os.path.join(HERE, 'known_findings.json'), 'w'), indent=1)
 print(len(F), 'entries')
